@@ -224,6 +224,24 @@ pub fn fold_alike_words() -> Vec<(String, String)> {
     for w in ["readonly"] {
         add("%local / {} a=1;", w);
     }
+    // the identifier spelled like the *name* of a keyword token type whose keyword is spelled
+    // differently (KwAllVar is `_ALL_`, KwNullDataset `_NULL_`, KwmInclude also `%inc`): a keyword
+    // table derived from the variant names would contain them
+    for t in T::iter() {
+        let n = t.to_string();
+        if let Some(rest) = n.strip_prefix("Kwm") {
+            for host in ["{}", "{} a=1;", "%let x={}(a,1);"] {
+                v.push((host.to_string(), format!("%{}", rest.to_ascii_lowercase())));
+            }
+        } else if let Some(rest) = n.strip_prefix("Kw") {
+            for host in ["{}", "a {} b;"] {
+                v.push((host.to_string(), rest.to_ascii_lowercase()));
+                v.push((host.to_string(), format!("_{}_", rest.to_ascii_lowercase())));
+            }
+        } else {
+            v.push(("{}".to_string(), n.to_ascii_lowercase()));
+        }
+    }
     v
 }
 
@@ -447,6 +465,8 @@ pub const COMMENT_ATOMS: &[&str] = &[
     ";", "=", "(", ")", ",", "&v", " ", "%let ", "1",
 ];
 
+pub const CMT_BODY: &[&str] = &["/*", "*/", "*", "/", "\n", "\r\n", " ", "a", ";", "'", "\""];
+
 pub fn comment_spaces(n: usize) -> Vec<Space> {
     let mut v = Vec::new();
     let mut ctx: Vec<(&str, &str)> = vec![("", ""), ("x ", ";")];
@@ -560,11 +580,14 @@ pub fn sigma_spaces(which: &[&str], tier: Tier) -> Vec<Space> {
                 v.extend(alias_spaces(if q { 3 } else { 4 }));
                 v.extend(hidden_run_spaces(if q { 2 } else { 3 }));
                 v.extend(comment_spaces(if q { 3 } else { 4 }));
+                v.push(sp("comment-body", CMT_BODY, if q { 5 } else { 6 }));
                 // every spelling of the in-stream data keywords (coverage measurement showed that
                 // only DATALINES and CARDS4 were ever exercised)
                 v.push(sp("dlfamily", DL_FAMILY, if q { 4 } else { 5 }));
             }
             "dl" => v.push(sp("dlfamily", DL_FAMILY, if q { 4 } else { 5 })),
+            // what a comment scanner sees: openers, closers, their halves, line ends, quotes
+            "cmtbody" => v.push(sp("comment-body", CMT_BODY, if q { 6 } else { 7 })),
             "aliasopen" => {
                 // the alias / exotic characters among open-code atoms (macro-free: for C11)
                 let mut a: Vec<&str> = ALIAS_ATOMS.iter().copied().filter(|x| !x.starts_with('%') && !x.starts_with('&')).collect();
